@@ -133,6 +133,8 @@ impl VM {
         E: std::io::Write + Clone,
     {
         while let Some(op) = self.ops.next() {
+            #[cfg(ucg_verif)]
+            crate::verif::tick("vm::run");
             let op = op.clone();
             let pos = self.ops.pos().unwrap().clone();
             let idx = self.ops.idx()?;
